@@ -94,7 +94,7 @@ Proof.
   intros Hwf. unfold reT.
   destruct r as [a|a|a|a b| |a|a| |a|a|a b]; cbn [wf_r] in Hwf; cbn [render_r];
     try (apply andb_true_iff in Hwf as [Hwf Hb]);
-    rewrite <- ?app_assoc; cbn [app]; mm.
+    cbn [app]; rewrite <- ?app_assoc; cbn [app]; mm.
 Qed.
 
 Lemma reNT_complete k r rest : wf_r r = true -> In rest (reNT (render_term (TR k r) ++ rest)).
@@ -198,4 +198,144 @@ Proof.
   pose proof (render_nonempty e Hne Hwf) as Hn.
   destruct (render e) eqn:E; [contradiction|]. rewrite <- E.
   rewrite (re_match_complete e Hne Hwf), (split_render e Hne Hwf). reflexivity.
+Qed.
+
+(* ------------------------------------------------------------ the recogniser is exactly the syntax *)
+Lemma is_nil_true (a : str) : is_nil a = true -> a = [].
+Proof. destruct a; [reflexivity|discriminate]. Qed.
+Lemma num_not_nil a : is_num a = true -> is_nil a = false.
+Proof. destruct a; [discriminate|reflexivity]. Qed.
+Lemma is_num_sL : is_num sL = false. Proof. reflexivity. Qed.
+Lemma is_nil_sL : is_nil sL = false. Proof. reflexivity. Qed.
+Lemma is_num_nil : is_num [] = false. Proof. reflexivity. Qed.
+Lemma is_nil_nil : is_nil (@nil N) = true. Proof. reflexivity. Qed.
+Lemma str_eqb_sL : str_eqb sL sL = true. Proof. reflexivity. Qed.
+Lemma str_eqb_nil_sL : str_eqb [] sL = false. Proof. reflexivity. Qed.
+
+Lemma split1 a : is_num a = true -> split_on cMinus a = [a].
+Proof. intros H. apply split_on_none, num_nodash, H. Qed.
+Lemma split_nil_dash w : split_on cMinus (cMinus :: w) = [] :: split_on cMinus w.
+Proof. apply (split_on_app cMinus [] w eq_refl). Qed.
+Lemma split_l_dash w : split_on cMinus (cL :: cMinus :: w) = sL :: split_on cMinus w.
+Proof. apply (split_on_app cMinus [cL] w eq_refl). Qed.
+Lemma split_num_dash a w : is_num a = true -> split_on cMinus (a ++ cMinus :: w) = a :: split_on cMinus w.
+Proof. intros H. apply split_on_app, num_nodash, H. Qed.
+Lemma split_l : split_on cMinus [cL] = [sL]. Proof. reflexivity. Qed.
+Lemma split_nil : split_on cMinus [] = [[]]. Proof. reflexivity. Qed.
+
+Ltac facts :=
+  repeat first
+    [ rewrite is_num_sL | rewrite is_nil_sL | rewrite is_num_nil | rewrite is_nil_nil
+    | rewrite str_eqb_sL | rewrite str_eqb_nil_sL
+    | match goal with H : is_num ?a = true |- _ => first [rewrite H | rewrite (num_not_nil a H) | rewrite (num_not_l a H)] end
+    | progress cbv iota | progress cbn [andb] ].
+
+Lemma parse_rterm_complete r : wf_r r = true -> parse_rterm (render_r r) = Some r.
+Proof.
+  intros Hwf. unfold parse_rterm.
+  destruct r as [a|a|a|a b| |a|a| |a|a|a b]; cbn [wf_r] in Hwf; cbn [render_r];
+    try (apply andb_true_iff in Hwf as [Hwf Hb]).
+  - rewrite (split1 a Hwf). facts. reflexivity.
+  - rewrite split_nil_dash, (split1 a Hwf). facts. reflexivity.
+  - rewrite (split_num_dash a [] Hwf), split_nil. facts. reflexivity.
+  - rewrite (split_num_dash a b Hwf), (split1 b Hb). facts. reflexivity.
+  - rewrite split_l. facts. reflexivity.
+  - rewrite split_l_dash, (split1 a Hwf). facts. reflexivity.
+  - rewrite split_l_dash, (split_num_dash a [] Hwf), split_nil. facts. reflexivity.
+  - rewrite split_nil_dash, split_l. facts. reflexivity.
+  - rewrite split_nil_dash, split_l_dash, (split1 a Hwf). facts. reflexivity.
+  - change (a ++ [cMinus; cL]) with (a ++ cMinus :: [cL]).
+    rewrite (split_num_dash a [cL] Hwf), split_l. facts. reflexivity.
+  - rewrite (split_num_dash a _ Hwf), split_l_dash, (split1 b Hb). facts. reflexivity.
+Qed.
+
+Lemma parse_term_complete t : wf t = true -> parse_term (render_term t) = Some t.
+Proof.
+  intros Hwf. destruct t as [| |k r]; [reflexivity|reflexivity|]. cbn [wf] in Hwf.
+  destruct (render_r_head r Hwf) as (c & w & Hr & H1 & H2 & H3).
+  unfold negation in H3. apply orb_false_iff in H3 as [H3 H4].
+  pose proof (parse_rterm_complete r Hwf) as Hp.
+  unfold parse_term. destruct k; cbn [render_term].
+  - rewrite Hr in *. cbn [str_eqb sEven sOdd]. rewrite H1, H2, H3, H4. cbn [andb]. rewrite Hp. reflexivity.
+  - change (str_eqb (cBang :: render_r r) sEven) with false.
+    change (str_eqb (cBang :: render_r r) sOdd) with false. cbv iota.
+    rewrite N.eqb_refl, Hp. reflexivity.
+  - change (str_eqb (cN :: render_r r) sEven) with false.
+    change (str_eqb (cN :: render_r r) sOdd) with false. cbv iota.
+    change (N.eqb cN cBang) with false. rewrite N.eqb_refl, Hp. reflexivity.
+Qed.
+
+Lemma in_syntax_complete e : e <> [] -> forallb wf e = true -> in_syntax (render e) = true.
+Proof.
+  intros Hne Hwf. unfold in_syntax. pose proof (render_nonempty e Hne Hwf) as Hn.
+  destruct (render e) eqn:E; [contradiction|]. rewrite <- E. rewrite (split_render e Hne Hwf).
+  rewrite forallb_forall in *. intros x Hx. apply in_map_iff in Hx as (t & <- & Ht).
+  rewrite (parse_term_complete t (Hwf t Ht)). reflexivity.
+Qed.
+
+Ltac cleanup :=
+  repeat match goal with
+    | H : is_nil ?a = true |- _ => apply is_nil_true in H; subst a
+    | H : str_eqb ?a sL = true |- _ => apply str_eqb_eq in H; subst a
+    | H : (_ && _) = true |- _ => apply andb_true_iff in H as [? ?]
+    end.
+
+Lemma parse_rterm_sound v r : parse_rterm v = Some r -> wf_r r = true /\ render_r r = v.
+Proof.
+  unfold parse_rterm. pose proof (join_split cMinus v) as J.
+  destruct (split_on cMinus v) as [|a [|b [|c [|d l]]]]; try discriminate; cbn [join] in J; subst v;
+    repeat match goal with |- context [if ?c then _ else _] => destruct c eqn:? end; try discriminate;
+    intros H; inversion H; subst r; clear H; cleanup; cbn [wf_r];
+    (split; [repeat match goal with H : is_num _ = true |- _ => rewrite H; clear H end; reflexivity
+            | rewrite ?app_nil_r; reflexivity]).
+Qed.
+
+Lemma parse_term_sound tok t : parse_term tok = Some t -> wf t = true /\ render_term t = tok.
+Proof.
+  unfold parse_term.
+  destruct (str_eqb tok sEven) eqn:E1.
+  { intros H. inversion H. apply str_eqb_eq in E1. subst. split; reflexivity. }
+  destruct (str_eqb tok sOdd) eqn:E2.
+  { intros H. inversion H. apply str_eqb_eq in E2. subst. split; reflexivity. }
+  destruct tok as [|c rest]; [discriminate|].
+  destruct (N.eqb c cBang) eqn:E3.
+  { apply N.eqb_eq in E3. subst c. destruct (parse_rterm rest) eqn:Ep; [|discriminate].
+    intros H. inversion H. subst t. destruct (parse_rterm_sound rest r Ep) as [Hw Hr].
+    split; [exact Hw|]. cbn [render_term]. rewrite Hr. reflexivity. }
+  destruct (N.eqb c cN) eqn:E4.
+  { apply N.eqb_eq in E4. subst c. destruct (parse_rterm rest) eqn:Ep; [|discriminate].
+    intros H. inversion H. subst t. destruct (parse_rterm_sound rest r Ep) as [Hw Hr].
+    split; [exact Hw|]. cbn [render_term]. rewrite Hr. reflexivity. }
+  destruct (parse_rterm (c :: rest)) eqn:Ep; [|discriminate].
+  intros H. inversion H. subst t. destruct (parse_rterm_sound (c :: rest) r Ep) as [Hw Hr].
+  split; [exact Hw|]. exact Hr.
+Qed.
+
+Lemma parse_all_sound l : forallb (fun t => is_some (parse_term t)) l = true ->
+  exists e, forallb wf e = true /\ map render_term e = l.
+Proof.
+  induction l as [|x l IH]; intros H.
+  - exists []. split; reflexivity.
+  - cbn [forallb] in H. apply andb_true_iff in H as [Hx Hl].
+    destruct (IH Hl) as (e & He & Hm).
+    destruct (parse_term x) as [t|] eqn:Ep; [|discriminate].
+    destruct (parse_term_sound x t Ep) as [Hw Hr].
+    exists (t :: e). split; [cbn [forallb]; rewrite Hw, He; reflexivity|].
+    cbn [map]. rewrite Hr, Hm. reflexivity.
+Qed.
+
+Lemma in_syntax_sound s : in_syntax s = true ->
+  exists e, e <> [] /\ forallb wf e = true /\ render e = s.
+Proof.
+  unfold in_syntax. destruct s as [|c s]; [discriminate|]. intros H.
+  destruct (parse_all_sound _ H) as (e & He & Hm).
+  exists e. split; [|split; [exact He|]].
+  - intros ->. cbn [map] in Hm. symmetry in Hm. exact (split_on_nonempty cComma (c :: s) Hm).
+  - unfold render. rewrite Hm. apply join_split.
+Qed.
+
+Lemma in_syntax_exact s :
+  in_syntax s = true <-> exists e, e <> [] /\ forallb wf e = true /\ render e = s.
+Proof.
+  split; [apply in_syntax_sound|]. intros (e & Hne & Hwf & <-). apply in_syntax_complete; assumption.
 Qed.
